@@ -96,6 +96,9 @@ var pool = []poolItem{
 	{"echo", `(make-echo-stream (make-string-input-stream "ab") (make-string-output-stream))`},
 	{"synonym", `(make-synonym-stream '*standard-output*)`},
 	{"twoway", `(make-two-way-stream (make-string-input-stream "ab") (make-string-output-stream))`},
+	// synonym streams whose variable holds a stream of one direction only (output only, input only)
+	{"synout", `(progn (defvar *c09-out-only* (make-broadcast-stream)) (make-synonym-stream '*c09-out-only*))`},
+	{"synin", `(progn (defvar *c09-in-only* (make-concatenated-stream (make-string-input-stream "ab"))) (make-synonym-stream '*c09-in-only*))`},
 	{"rstate", `(make-random-state)`},
 	{"mutex", `(make-mutex)`},
 	{"bagpath", `(make-bag-path "a.b")`},
